@@ -208,7 +208,8 @@ def run(ctx):
     pairs = sorted({pr["pair"] for pr in pilot})
     classes = ["unreadable", "parse_error", "compile_error", "missing_secret", "missing_secret_basic", "missing_secret_pull_token",
                "missing_secret_admin_token", "missing_secret_ref", "restart_required"]
-    for pair in (pairs[:3] if ctx.quick else pairs):
+    # quick: three pairs with single-request probes (the several-request probes wait seconds for a limiter to refill)
+    for pair in ([p for p in pairs if "rate_limit" not in p][:3] if ctx.quick else pairs):
         for cl in classes:
             jobs.append({"kind": "failed", "pair": pair, "class": cl, "name": "failed-%s-%s" % (pair, cl)})
     frozen = vf.hkv(["frozen-pairs"]).split()
@@ -220,7 +221,7 @@ def run(ctx):
     for sc in ("post_write_validation_fails", "reload_refused"):
         jobs.append({"kind": "rollback", "scenario": sc, "name": "rollback-" + sc})
     # --- execute in parallel processes (gates are process-global)
-    nsh = vf.NCPU
+    nsh = vf.NCPU * 3      # the jobs mostly wait (gates, limiter refills): more processes than cores
     shards = [jobs[i::nsh] for i in range(nsh)]
     files = []
 
